@@ -526,6 +526,13 @@ def replay(ctx, path):
             return fdworld.replay(ctx, path, {"TMPDIR": tmp, "SFH_SCRATCH": tmp})
         finally:
             shutil.rmtree(tmp, ignore_errors=True)
+    if "c19-heapcodec" in text:
+        from .. import heapcodec
+        tmp = tempfile.mkdtemp(prefix="c19-", dir="/var/tmp")
+        try:
+            return heapcodec.replay(ctx, path, {"TMPDIR": tmp, "SFH_SCRATCH": tmp})
+        finally:
+            shutil.rmtree(tmp, ignore_errors=True)
     if "c19-heapfill" in text:
         from .. import heapcamp
         tmp = tempfile.mkdtemp(prefix="c19-", dir="/var/tmp")
